@@ -235,7 +235,7 @@ def scan(trace):
                 else:
                     visited = e.get("order", [])
                     pref = any(b != a and a.startswith(b) for b in visited)
-                    dev["lost"].append((n, SIG["lost"] if pref and not payable else "epoch:accumulators-cleared-without-payout:other",
+                    dev["lost"].append((n, SIG["lost"] if pref else "epoch:accumulators-cleared-without-payout:other",
                                         dict(where, agreement=a, owed={d: str(x) for d, x in owed.items()}, stored_agreement=ag is not None,
                                              address_blocked=bool(ag and ag["addr"] in cf["blocked"]), visited=visited,
                                              accumulators_after={d: str(x) for d, x in nacc.get(a, {}).items()})))
@@ -421,10 +421,13 @@ def run(ctx):
     ctx.leg = "replay"
     asb = ", ".join('"%s"' % k for k in ("cpc", "buc", "stc") if k in observed)
     if q:
-        gens = [("family A: two swaps, an agreement, a deposit, a failed transaction, one epoch end", dict(fail=1)),
+        gens = [("family D: a swap, an agreement, a deposit, a failed transaction, one epoch end", dict(family="D", swap=1, fail=1)),
+                ("family A: a swap, two agreements (over 100% together), one epoch end", dict(swap=1, agr=2, dep=0)),
                 ("family B: a swap, an agreement, a deposit, two epoch ends", dict(family="B", swap=1, epoch=2, fees="5"))]
     else:
-        gens = [("family A: two swaps of two amounts, an agreement, a deposit, a failed transaction, one epoch end", dict(fail=1, fees="3, 5")),
+        gens = [("family A: two swaps, an agreement, a deposit, a failed transaction, one epoch end", dict(fail=1)),
+                ("family A: a swap, two agreements, a deposit, a failed transaction, one epoch end", dict(swap=1, agr=2, fail=1)),
+                ("family B: a swap, two agreements, a deposit, one epoch end", dict(family="B", swap=1, agr=2, fees="5")),
                 ("family B: a swap, an agreement, a deposit, two epoch ends", dict(family="B", swap=1, epoch=2, fees="5")),
                 ("family C: a swap of two amounts, two agreements, one epoch end", dict(family="C", swap=1, dep=0, agr=2, fees="3, 5")),
                 ("family C: a swap, an agreement, a deposit, a reconfiguration, one epoch end", dict(family="C", swap=1, conf=1, fees="5")),
